@@ -79,7 +79,12 @@ def charges(draw, cents, shells=None):
 def case_st(draw, la, lb):
     shells = draw(gen.basis(nmin=2, nmax=3, lmax=4, first_ls=(la, lb), kmax=3).flatmap(gen.with_prefactor_distance))
     pos, q, cls = draw(charges([s["coord"] for s in shells], shells))
-    return {"shells": shells, "coords": pos, "charges": q, "ccls": cls}
+    ints = draw(st.integers(0, 5)) == 0
+    if ints:  # integer-typed coordinate and charge arrays are documented input
+        pos = [[float(round(x)) for x in p] for p in pos]
+        q = [float(round(v)) or 1.0 for v in q]
+        cls = ["int-array"] * len(cls)
+    return {"shells": shells, "coords": pos, "charges": q, "ccls": cls, "ints": ints}
 
 
 def judge(case):
@@ -102,7 +107,8 @@ def judge(case):
         for c in C:
             T = 2 * s.exps.max() * np.sum((s.A - c) ** 2)
             v.classes.append("boysT-0" if T == 0 else "boysT-1e%d" % int(np.clip(np.floor(np.log10(T)), -3, 9)))
-    got = lib(point_charge_integral, bas, C, q)
+    Cl, ql = (C.astype(int), q.astype(int)) if case.get("ints") else (C, q)
+    got = lib(point_charge_integral, bas, Cl, ql)
     if got.shape != ref.shape:
         return v.fail(f"point_charge_integral shape {got.shape}, expected {ref.shape}")
     # block level first (Cartesian, un-normalised) so that the arbiter can re-judge single elements
@@ -143,7 +149,7 @@ def judge(case):
     v.info["rel_dev"] = d
     if not d <= TOL:
         return v.fail(f"point_charge_integral deviates by {d:.3e} of sqrt(|V_aa V_bb|) at {at} (charge {q[at[2]]:.3g} at {C[at[2]].tolist()})")
-    nea = lib(nuclear_electron_attraction_integral, bas, C, q)
+    nea = lib(nuclear_electron_attraction_integral, bas, Cl, ql)
     d, at = maxdev(nea, got.sum(axis=2), np.abs(got).sum(axis=2) + 1e-300)
     if not d <= 1e-13:
         return v.fail(f"nuclear_electron_attraction_integral is not the sum over charges: {d:.3e} at {at}")
